@@ -264,11 +264,16 @@ def _subscript_reg(I, base, sl):
 U.subscript_hooks = {'Dfr': _subscript_array, 'Reg': _subscript_array}
 
 
+_DFR_NONEMPTY = z3.Function('dfr_nonempty', Dfr, z3.BoolSort())       # bool(d) of the by-name dictionary
+
+
 def _contains_dfr(I, container, x):
     k = x
     if is_z3(x) and I.sort_of(x) == 'Target':
         k = U.acc('Target', 'ByName', 'k')(x)
-    return U.is_('OptFn', 'SomeFn', z3.Select(container, I.coerce(k, 'Key')))
+    present = U.is_('OptFn', 'SomeFn', z3.Select(container, I.coerce(k, 'Key')))
+    I.assume(z3.Implies(present, _DFR_NONEMPTY(container)))         # a dictionary with an entry is truthy (instance)
+    return present
 
 
 class _RegistryView:
@@ -366,7 +371,7 @@ def _mro_attr(I, base):
     return m
 
 
-U.truthy = {'Target': lambda v: z3.Or(U.is_('Target', 'ByClass', v),
+U.truthy = {'Dfr': lambda v: _DFR_NONEMPTY(v), 'Target': lambda v: z3.Or(U.is_('Target', 'ByClass', v),
                                       z3.And(U.is_('Target', 'ByName', v), C_nonempty(U.acc('Target', 'ByName', 'k')(v))))}
 U.isinstance_hooks = {('Target', 'str'): lambda I, v: U.is_('Target', 'ByName', v)}
 _NONEMPTY = z3.Function('nonempty_key', U.sort('Key'), z3.BoolSort())
